@@ -18,7 +18,7 @@ from simkit.pipe import Pipe, open_frontend
 
 ID = "C17"
 LEVEL = "exploration"
-RUNS = {"quick": 1200, "thorough": 30000}
+RUNS = {"quick": 800, "thorough": 30000}
 CHUNK = 10
 BATCH = 40
 RULE = ("each run is a batch of 40 byte strings parsed in a forked child (so that a killed interpreter is observable "
@@ -59,7 +59,7 @@ def generate(rng, run, tier):
         else:
             inputs.append(gen_hostile(rng))
     for i in inputs:
-        i["consumer"] = rng.choice(["flat", "flat", "grouped"])
+        i["consumer"] = rng.choice(["flat", "flat", "grouped", "to_graph", "plugin"])
         i["integration"] = rng.choice(["generic", "generic", "rdflib"])
         i["frontend"] = rng.choice(["bytesio", "bytesio", "raw", "buffered"])
         if i.get("template") == "many_frames" and i["integration"] == "rdflib" and i["consumer"] == "grouped":
@@ -287,6 +287,12 @@ def parse_one(rec, data: bytes):
         if rec["consumer"] == "flat":
             for _ in nodes.parse_flat(rec["integration"], fobj):
                 n += 1
+        elif rec["consumer"] in ("to_graph", "plugin"):
+            via = False
+            if rec["consumer"] == "plugin":
+                via = True if rec["integration"] == "generic" else "dataset"
+            sts, _ = nodes.parse_to_graph(rec["integration"], fobj, via_plugin=via)
+            n += len(sts)
         else:
             for sts, nss in nodes.parse_grouped(rec["integration"], fobj):
                 n += len(sts) + 1
